@@ -156,6 +156,10 @@ def check_case(case):
             {"clause": "ungroup(group(stream)) is not the original stream", "policy": pol, "expected": core.jsonable(e), "observed": core.jsonable(o)}
             for pol, e, o in (bad or [])
         ]
+    if case["kind"] == "long":
+        label, cols, stream = N.long_streams(case.get("thorough", False))[case["index"]]
+        bad = eval_roundtrip(stream, [N.to_impl(n) for n in stream], tuple(M.ALL_TYPES), case["mode"], case["join"], case["head"], case["tail"])
+        return [{"clause": "ungroup(group(stream)) is not the original stream (long stream)", "expected": f"{len(e)} notes", "observed": o if isinstance(o, str) else f"{len(o)} notes"} for pol, e, o in (bad or [])]
     if case["kind"] == "handbuilt":
         plain = parse_stream(case["plain"])
         holds = [(Fraction(h[0]), h[1], h[2], Fraction(h[3]), h[4], h[5]) for h in case["holds"]]
@@ -229,6 +233,27 @@ def explore_shard(acc, shard):
         else:
             acc.count("transitions")
             rec(list(prefix))
+    elif kind == "long":
+        _, idx, thorough = shard
+        label, cols, stream = N.long_streams(thorough)[idx]
+        layer = "L long streams"
+        istream = [N.to_impl(n) for n in stream]
+        types = tuple(M.ALL_TYPES)
+        case = None
+        for mode in N.MODES:
+            for join, hp, tp in ((False, M.RAISE, M.RAISE), (True, M.KEEP, M.KEEP), (True, M.DROP, M.DROP)):
+                case = {"kind": "long", "index": idx, "thorough": thorough, "label": label, "mode": mode, "join": join, "head": hp, "tail": tp}
+                core.guard(acc, case)
+                bad = eval_roundtrip(stream, istream, types, mode, join, hp, tp)
+                acc.count("evaluations", 3)
+                for pol, e, o in (bad or []):
+                    acc.violation("ungroup(group(stream)) is not the original stream (long stream)", case, f"{len(e)} notes", o if isinstance(o, str) else f"{len(o)} notes, first difference at {next((i for i, (a, b) in enumerate(zip(e, o)) if a != b), 'the end')}",
+                                  signature=("roundtrip-long", join, isinstance(o, str)))
+        acc.count("states")
+        acc.count("transitions")
+        acc.count("nontrivial")
+        acc.outcome("long stream")
+        acc.sample(layer, {"label": label, "notes": len(stream)})
     elif kind == "M":
         # k holds in k columns, open in every possible interleaving: all perfect matchings of the beats 0..2k-1
         # into (head, tail) pairs, the hold with the i-th earliest head in column i (tails are kept in a heap /
@@ -383,6 +408,7 @@ def explore(run):
             for j1 in range(i1 + 1, 4):
                 shards.append(("H", c1, i1, j1))
     shards.append(("P3",))
+    shards += [("long", i, run.thorough()) for i in range(len(N.long_streams(run.thorough())))]
     for k in (1, 2, 3, 4, 5):
         shards.append(("M", k, 0, 1))
     for part in range(8):
@@ -401,7 +427,7 @@ def explore(run):
         + "; every node x include sets (all types, all-but-one present type, the empty set) x 3 same-beat modes x (join off + join on x 3x3 orphan policies) x 3 ungroup policies, "
         "compared with 'the included notes minus exactly the orphans the model says were dropped'; "
         "H: one or two NoteWithTail on a 2x4 grid + <=2 plain notes in every other cell x 3 groupings x 3 policies; corpus charts. "
-        "M: k <= 6 (thorough 7) holds in k columns in every interleaving of their heads and tails (all perfect matchings of 2k beats: 10395 for k = 6). "
+        "L: the long streams of C09 (1023..4097 notes between a head and its tail, thousands of rows, 1500 short holds) x 3 modes x join off / keep / drop. M: k <= 6 (thorough 7) holds in k columns in every interleaving of their heads and tails (all perfect matchings of 2k beats: 10395 for k = 6). "
         "Non-trivial = stream has a head and a tail / a hand-built sequence with plain notes."
     )
     run.assumptions = [
